@@ -10,7 +10,7 @@ func init() {
 			muts := []string{
 				"K = b", "K := b", "K = [b]", "K = y", "K++", "K--", "++K", "--K", "K[0] = b", "K[-1] = b", "K[c] = b", "K[1] = b", "K.k = b", "K[5] = b",
 				"del(K[0])", "del(K[1])", "del(K[5])", "del(K.k)", "for K = 3 {1}", "for K = [b, c] {1}", "for K = 0:2 {K}", "for K = k0 {K}",
-				"func f(K){K}; f(b)", "func f(K){K = c; K}; f(b)", "func g(){K = b}; g()", "func g(){K[0] = b}; g()", "func g(){K++}; g()", "func g(){del(K[0])}; g()",
+				"func f(K){K}; f(b)", "func f(K){K = c; K}; f(b)", "for K = 3 {println(K)}", "func f(K){println(K); K}; f(b); K", "for K = 2 {K}; K", "func g(){K = b}; g()", "func g(){K[0] = b}; g()", "func g(){K++}; g()", "func g(){del(K[0])}; g()",
 				"for i = 2 {K = i}", "for i = 2 {K[0] = i}", "h = func(){K = b}; h()", "h = func(){func(){K[0] = b}()}; h()", "K = K", "K = a", "K, b",
 				"func g(u){u[0] = b; u}; g(K)", "L = K; L[0] = b", "L = K; L = L + [b]", "L = K; del(L[1])", "L = K + K", "[K][0][0] = b", "catch(K = b)", "K = b; K = c",
 			}
